@@ -46,13 +46,10 @@ def c18_nontrivial(c, i):
     return True
 
 
-def _depth(tree_toks):
-    d = mx = 0
-    stack = []
-    it = iter(range(len(tree_toks)))
-    # prefix form: O n (key value)*, A n value*; track nesting by counting remaining children
-    k = 0
-    toks = tree_toks
+def _depth(toks):
+    """nesting depth of a tree in prefix token form (O n (key value)*, A n value*)"""
+    mx = 0
+
     def walk(pos, depth):
         nonlocal mx
         mx = max(mx, depth)
@@ -116,7 +113,7 @@ CFG = {
         "c18_order_only": _sig("order", ("c18.remove", "c18.keep")),
         "c18_array_index": _sig("arridx", ("c18.remove",)),
     },
-    "rule": "every selector string over {a . \\} up to length 7 (quick) / 9 (thorough); Build/Parse round trips for all 1- and 2-element name lists over that alphabet up to length 2 plus random lists; root {a,b,c} with each value from a 5-entry menu (scalar, 3-key object, 1-key object, array, empty object) x subsets of the 12 selectors a..c, a.a..c.c (all 4095 subsets in thorough, both plugins for subsets of size <= 3, alternating above; size <= 2 plus a sample in quick); then random events with unique keys (dots, backslashes, digits, empty, non-ASCII), depth <= 4, width <= 5 (1/12: width up to 30 for insane-json's map index), 1-6 selectors (1/25: 13-20) drawn from existing paths, ancestors, descendants, missing siblings, paths through arrays / scalars with numeric and non-numeric elements, raw dotted text, duplicates; distinct = distinct case line; non-trivial = the plugin changed the event (remove/keep) or the selector has >= 2 elements (parse)",
+    "rule": "every selector string over {a . \\} up to length 7 (quick) / 9 (thorough); Build/Parse round trips for all 1- and 2-element name lists over that alphabet up to length 2 plus random lists; root {a,b,c} with each value from a 5-entry menu (scalar, 3-key object, 1-key object, array, empty object) x subsets of the 12 selectors a..c, a.a..c.c (all 4095 subsets in thorough; size <= 2 plus a 1% sample in quick; both plugins on each); then random events with unique keys (dots, backslashes, digits, empty, non-ASCII), depth <= 4, width <= 5 (1/12: width up to 30 for insane-json's map index), 1-6 selectors (1/25: 13-20) drawn from existing paths, ancestors, descendants, missing siblings, paths through arrays / scalars with numeric and non-numeric elements, raw dotted text, duplicates; distinct = distinct case line; non-trivial = the plugin changed the event (remove/keep) or the selector has >= 2 elements (parse)",
     "corr_name": "Fields.parseFieldSelector = cfg.ParseFieldSelector; Fields.dedupe(sort oracle) = cfg.ParseNestedFields; Fields.removeFields = remove_fields Start+Do; Fields.keepFields = keep_fields Start+Do (event tree after Do, key order included)",
     "trusted_base": [
         "insane-json v0.1.9 as modelled: Dig = first field with the unescaped name, arrays entered by strconv.Atoi index; Suicide on an object field moves the LAST field into the hole (array elements: order-preserving); AsFields = current field order; Encode and the node arrays describe the same tree (the harness compares both on every case)",
